@@ -37,7 +37,7 @@ CASES = [
                 dict(file=EN, old="        self.report.contextualize(self.submission)\n", new="        self.report.contextualize(self.submission)\n        report.clear()\n")]),
     m('contextualize-default-no-clear', 'R4', 'contextualize_report', CM, "def contextualize_report(submission, filename='answer.py', clear=True,", "def contextualize_report(submission, filename='answer.py', clear=False,"),
     m('clear-forgets-overrides', 'R5', 'Report.clear:restores', RP, "        self.chosen_pool = None\n        self.clear_overridden_feedback()", "        self.chosen_pool = None"),
-    m('revert-fix-own-namespace', 'R5', 'override:own-namespace', FB, "        if '_override_backups' not in cls.__dict__:", "        if cls._override_backups is None:"),
+    m('revert-fix-own-namespace', 'R5', 'override:restores', FB, "        if cls.__dict__.get('_override_backups') is None:", "        if cls._override_backups is None:"),
     m('random-tiebreak-in-resolver', 'R6', 'nondeterminism:random.random', 'pedal/resolvers/simple.py',
       "    offset = priority_offset(priority)\n    return value + offset", "    import random\n    offset = priority_offset(priority)\n    return value + offset + random.random() / 1000"),
     dict(name='repaired-pools-in-report', kind='repaired', gone=('R1', 'Feedback._pools'),
